@@ -16,13 +16,17 @@ from harness.core import z, coq_list, coq_opt, coq_str, coq_bool
 PID = "C20"
 GEN_GROUPS = ["ClientShape"]
 TARGETS = ["coq/Props/C20.vo", "coq/Model/Client.vo"]
-CASES = {"quick": 700, "thorough": 5000}
+CASES = {"quick": 700, "thorough": 2500}
 CORR_HEADER = ("From Coq Require Import ZArith List String.\n"
                "From ACN Require Import Base.Num Model.Client.\nImport ListNotations.\n"
                "Open Scope string_scope.\nOpen Scope Z_scope.\n")
 CHECK_FN = "check_c20"
 SHARD = 60
-RULE = ("corpus/C20 witnesses first (year-999 round trip, fixed in 87c5f78); fake transport serving 0..6 pages (empty pages, missing / surplus next links, responses running out) of "
+RULE = ("corpus/C20 witnesses first (year-999 round trip, fixed in 87c5f78); 8 queries issued by a second interpreter with "
+        "another PYTHONHASHSEED; families: single call on a fresh client / the same client reused for 2-4 consecutive calls "
+        "(url and token changed in between) / 2-3 live generators advanced alternately / lazy consumption of k sessions then close() / "
+        "yielded documents scribbled over by the caller / count_sessions and get_sessions_by_time(count=True) / parse_dates called "
+        "directly / the same timestamp string parsed into 2-3 zones consecutively / truthy-int flags / base URL without slash; fake transport serving 0..6 pages (empty pages, missing / surplus next links, responses running out) of "
         "documents with RFC-1123 fields and time series in 9 zones around DST transitions, near years 1 / 9999, "
         "non-date strings, malformed timestamps, missing / unknown time zones; every combination of site "
         "(valid / invalid) x cond x project x sort x timeseries; get_sessions_by_time with aware bounds; "
@@ -136,21 +140,41 @@ class FakeResponse:
         return copy.deepcopy(self._payload)
 
 
-class FakeRequests:
-    """stands in for the `requests` module inside data_client.py; the k-th get() returns the k-th payload"""
+class FakeHead:
+    def __init__(self, total):
+        self.headers = {} if total is None else {"x-total-count": total}
 
-    def __init__(self, payloads):
-        self.payloads = payloads
-        self.calls = []
+
+class Transport:
+    """stands in for the `requests` module inside data_client.py.  Each route (a base URL) has its own finite
+    list of responses: the k-th get() under that base returns its k-th payload.  Several routes can be live at
+    once (two clients consumed alternately)."""
+
+    def __init__(self):
+        self.routes = []
+
+    def route(self, base, payloads, total=None):
+        r = dict(base=base, payloads=payloads, calls=[], total=total)
+        self.routes = [x for x in self.routes if x["base"] != base] + [r]
+        return r
+
+    def _find(self, url):
+        cands = [r for r in self.routes if url.startswith(r["base"])]
+        if not cands:
+            raise ConnectionError("fake transport: no route for %r" % url)
+        return max(cands, key=lambda r: len(r["base"]))
 
     def get(self, url, auth=None, **kw):
-        self.calls.append((url, auth))
-        if len(self.calls) > len(self.payloads):
+        r = self._find(url)
+        r["calls"].append((url, auth))
+        if len(r["calls"]) > len(r["payloads"]):
             raise ConnectionError("fake transport: no more responses")
-        return FakeResponse(self.payloads[len(self.calls) - 1])
+        return FakeResponse(r["payloads"][len(r["calls"]) - 1])
 
-    def head(self, *a, **k):
-        raise AssertionError("head() not expected")
+    def head(self, url, headers=None, **kw):
+        r = self._find(url)
+        r["calls"].append((url, ("HEAD", dict(headers or {}))))
+        return FakeHead(r["total"])
 
 
 def exc_label(e):
@@ -159,24 +183,72 @@ def exc_label(e):
     return type(e).__name__
 
 
-def run_client(base, token, call, payloads):
-    """call(client) -> generator; returns (urls, auths, yielded docs, outcome label or None)"""
+class installed_transport:
+    def __enter__(self):
+        import acnportal.acndata.data_client as dc
+        self.dc, self.real = dc, dc.requests
+        dc.requests = self.t = Transport()
+        return self.t
+
+    def __exit__(self, *a):
+        self.dc.requests = self.real
+
+
+DEFAULT_BASE = "https://ev.caltech.edu/api/v1/"
+
+
+def make_client(base, token):
     import acnportal.acndata.data_client as dc
-    fake = FakeRequests(payloads)
-    real = dc.requests
-    dc.requests = fake
-    yielded, err = [], None
+    return dc.DataClient(token, base) if base is not None else dc.DataClient(token)
+
+
+def step(run):
+    """one next() on a running session; records a snapshot of the yielded document AT YIELD TIME, then (for
+    some runs) the caller scribbles over the document it was handed"""
+    if run["done"]:
+        return
     try:
-        client = dc.DataClient(token, base) if base is not None else dc.DataClient(token)
+        if run["gen"] is None:
+            run["gen"] = run["call"](run["client"])      # creating the generator runs nothing of get_sessions
+        if run["take"] is not None and len(run["yielded"]) >= run["take"]:
+            run["gen"].close()
+            run["done"], run["err"] = True, "Suspended"
+            return
+        d = next(run["gen"])
+    except StopIteration:
+        run["done"] = True
+        return
+    except Exception as e:  # noqa
+        run["done"], run["err"] = True, exc_label(e)
+        return
+    i = len(run["yielded"])
+    flat, ids = run["flat"], run["ids"]
+    run["yielded"].append(obs_doc(d))
+    run["yielded_coq"].append(yielded_coq(flat[i] if i < len(flat) else {}, d, ids[i] if i < len(ids) else {}))
+    if run["scribble"]:
+        for k in list(d):
+            if isinstance(d[k], dict) and "timestamps" in d[k]:
+                d[k]["timestamps"][:] = []
+        d.clear()
+        d["_id"] = "scribbled"
+
+
+def finish(run):
+    while not run["done"]:
+        step(run)
+
+
+def run_client(base, token, call, payloads):
+    """compatibility wrapper (replay): full consumption of one generator on a fresh client"""
+    with installed_transport() as t:
+        r = t.route(base if base is not None else DEFAULT_BASE, payloads)
+        yielded, err = [], None
         try:
-            gen = call(client)
-            for s in gen:
-                yielded.append(s)
+            for s_ in call(make_client(base, token)):
+                yielded.append(s_)
         except Exception as e:  # noqa
             err = exc_label(e)
-    finally:
-        dc.requests = real
-    return [c[0] for c in fake.calls], [c[1] for c in fake.calls], yielded, err
+    return [c[0] for c in r["calls"]], [c[1] for c in r["calls"]], yielded, err
 
 
 # ------------------------------------------------------------------------------------------------
@@ -334,7 +406,7 @@ def tabs_coq(tabs):
 # ------------------------------------------------------------------------------------------------
 SITES = ["caltech", "jpl", "office001"]
 BAD_SITES = ["Caltech", "", "jpl ", "office01", "caltech/ts", "JPL"]
-BASES = [None, "https://ev.caltech.edu/api/v1/", "http://localhost:5000/api/v1/", "http://h/"]
+BASES = [None, "https://ev.caltech.edu/api/v1/", "http://localhost:5000/api/v1/", "http://h/", "http://noslash"]
 CONDS = [None, None, "", 'connectionTime >= "Mon, 01 Oct 2018 00:00:00 GMT"', "kWhDelivered > 5 and userID != null",
          'connectionTime<="Tue, 01 Jan 2019 08:00:00 GMT" and kWhDelivered>=1.5']
 PROJECTS = [None, None, None, '{"sessionID": 1, "kWhDelivered": 1}']
@@ -385,26 +457,22 @@ def pages_coq(payloads, opq):
     return coq_list(out)
 
 
-def build_run_case(rng, by_time):
+def rand_spec(rng, by_time, base="?", token=None):
+    """one get_sessions / get_sessions_by_time call with its server; nothing is executed here"""
     import pytz
     timeseries = rng.random() < 0.3
     payloads, metas = rand_pages(rng, timeseries)
-    base = rng.choice(BASES)
-    token = rng.choice(["tok", "DEMO_TOKEN", ""])
+    if base == "?":
+        base = rng.choice(BASES)
+    if token is None:
+        token = rng.choice(["tok", "DEMO_TOKEN", ""])
     site = rng.choice(SITES) if rng.random() < 0.85 else rng.choice(BAD_SITES)
-    opq = Opaque()
-    pages_c = pages_coq(payloads, opq)
-    # opaque ids per document/field, in the numbering order used by pages_coq
-    ids, n = [], 0
-    for p in payloads:
-        for d in p["_items"]:
-            m = {}
-            for k, v in d.items():
-                if not isinstance(v, str) and not (isinstance(v, dict) and "timestamps" in v):
-                    m[k] = n
-                    n += 1
-            ids.append(m)
-    base_c = coq_str(base if base is not None else "https://ev.caltech.edu/api/v1/")
+    ts_arg = timeseries if rng.random() < 0.8 else (1 if timeseries else 0)      # truthy ints are legal flags
+    spec = dict(by_time=by_time, base=base, token=token, site=site, timeseries=timeseries, payloads=payloads, metas=metas,
+                take=None, scribble=rng.random() < 0.25)
+    nitems = sum(len(p["_items"]) for p in payloads)
+    if rng.random() < 0.3:
+        spec["take"] = rng.choice([0, 1, 1, 2, max(nitems - 1, 0), nitems, nitems + 1, rng.randint(0, nitems + 1)])
     if not by_time:
         cond, project, sort = rng.choice(CONDS), rng.choice(PROJECTS), rng.choice(SORTS)
         kwargs = {}
@@ -415,48 +483,239 @@ def build_run_case(rng, by_time):
         if sort is not None:
             kwargs["sort"] = sort
         if timeseries or rng.random() < 0.3:
-            kwargs["timeseries"] = timeseries
-        urls, auths, yielded, err = run_client(base, token, lambda c: c.get_sessions(site, **kwargs), payloads)
-        qc = "{| q_site := %s; q_cond := %s; q_project := %s; q_sort := %s; q_timeseries := %s |}" % (
-            coq_str(site), coq_opt(cond, coq_str), coq_opt(project, coq_str), coq_opt(sort, coq_str), coq_bool(timeseries))
-        inp = dict(op="get_sessions", base=base, site=site, cond=cond, project=project, sort=sort, timeseries=timeseries)
-        head = "CRun %s %s %s %s" % ("%s", base_c, qc, pages_c)
+            kwargs["timeseries"] = ts_arg
+        spec.update(cond=cond, project=project, sort=sort, call=lambda c: c.get_sessions(site, **kwargs))
     else:
         def bound():
             if rng.random() < 0.25:
-                return None, "None"
+                return None
             t, zone = rand_instant_zone(rng)
             off = oracle_offset(zone, t) or 0
             if not (MIN_T <= t + off <= MAX_T):
                 off, zone = 0, "UTC"
-            dt = pytz.utc.localize(naive_of(t)).astimezone(pytz.timezone(zone)) if zone != "UTC" else pytz.utc.localize(naive_of(t))
-            return dt, "(Some %s)" % dt_aware_coq(dt)
-        (st, st_c), (en, en_c) = bound(), bound()
-        me = rng.choice([None, None, 0, 5, 1.5, 10.25])
-        kw = dict(start=st, end=en, min_energy=me, timeseries=timeseries)
-        urls, auths, yielded, err = run_client(base, token, lambda c: c.get_sessions_by_time(site, **kw), payloads)
+            return pytz.utc.localize(naive_of(t)).astimezone(pytz.timezone(zone)) if zone != "UTC" else pytz.utc.localize(naive_of(t))
+        st, en = bound(), bound()
+        me = rng.choice([None, None, 0, 5, 1.5, 10.25, 0.0])
+        kw = dict(start=st, end=en, min_energy=me, timeseries=ts_arg)
+        spec.update(start=st, end=en, min_energy=me, call=lambda c: c.get_sessions_by_time(site, **kw))
+    return spec
+
+
+def new_run(spec, client):
+    payloads = spec["payloads"]
+    ids, n = [], 0            # opaque ids per document/field, in the numbering order used by pages_coq
+    for p in payloads:
+        for d in p["_items"]:
+            m = {}
+            for k, v in d.items():
+                if not isinstance(v, str) and not (isinstance(v, dict) and "timestamps" in v):
+                    m[k] = n
+                    n += 1
+            ids.append(m)
+    return dict(spec=spec, client=client, call=spec["call"], gen=None, done=False, err=None, yielded=[], yielded_coq=[],
+                take=spec["take"], scribble=spec["scribble"], flat=[d for p in payloads for d in p["_items"]], ids=ids)
+
+
+def case_of_run(run, route, family):
+    spec = run["spec"]
+    payloads, metas, base, site, timeseries = spec["payloads"], spec["metas"], spec["base"], spec["site"], spec["timeseries"]
+    urls, auths = [c[0] for c in route["calls"]], [c[1] for c in route["calls"]]
+    err = run["err"]
+    pages_c = pages_coq(payloads, Opaque())
+    base_c = coq_str(base if base is not None else DEFAULT_BASE)
+    take_c = coq_opt(spec["take"], lambda k: "%d%%nat" % k)
+    out_c = "Done" if err is None else ("Suspended" if err == "Suspended" else '(Raised "%s")' % err)
+    exp_c = "{| t_requests := %s; t_yielded := %s; t_outcome := %s |}" % (
+        coq_list([coq_str(u) for u in urls]), coq_list(run["yielded_coq"]), out_c)
+    tabs_c = tabs_coq(tabs_for(metas))
+    if not spec["by_time"]:
+        qc = "{| q_site := %s; q_cond := %s; q_project := %s; q_sort := %s; q_timeseries := %s |}" % (
+            coq_str(site), coq_opt(spec["cond"], coq_str), coq_opt(spec["project"], coq_str), coq_opt(spec["sort"], coq_str),
+            coq_bool(timeseries))
+        inp = dict(op="get_sessions", base=base, site=site, cond=spec["cond"], project=spec["project"], sort=spec["sort"],
+                   timeseries=timeseries)
+        coq = "(CRun %s %s %s %s %s %s)" % (tabs_c, base_c, qc, pages_c, take_c, exp_c)
+    else:
+        st, en, me = spec["start"], spec["end"], spec["min_energy"]
         inp = dict(op="get_sessions_by_time", base=base, site=site, start=str(st), end=str(en), min_energy=me,
                    timeseries=timeseries,
                    start_inst=None if st is None else secs_of(st) - int(st.utcoffset().total_seconds()),
                    end_inst=None if en is None else secs_of(en) - int(en.utcoffset().total_seconds()))
-        head = "CRunByTime %s %s %s %s %s %s %s %s" % ("%s", base_c, coq_str(site), st_c, en_c,
-                                                     coq_opt(None if me is None else "{0}".format(me), coq_str),
-                                                     coq_bool(timeseries), pages_c)
-    flat = [d for p in payloads for d in p["_items"]]
-    ys_c = coq_list([yielded_coq(flat[i] if i < len(flat) else {}, got, ids[i] if i < len(ids) else {})
-                     for i, got in enumerate(yielded)])
-    out_c = "Done" if err is None else '(Raised "%s")' % err
-    exp_c = "{| t_requests := %s; t_yielded := %s; t_outcome := %s |}" % (coq_list([coq_str(u) for u in urls]), ys_c, out_c)
-    tabs = tabs_for(metas)
-    coq = "(" + (head % tabs_coq(tabs)) + " " + exp_c + ")"
+        coq = "(CRunByTime %s %s %s %s %s %s %s %s %s %s)" % (
+            tabs_c, base_c, coq_str(site), coq_opt(st, dt_aware_coq), coq_opt(en, dt_aware_coq),
+            coq_opt(None if me is None else "{0}".format(me), coq_str), coq_bool(timeseries), pages_c, take_c, exp_c)
     inp.update(pages=[dict(items=[d.get("sessionID") for d in p["_items"]], next=p["_links"].get("next", {}).get("href"))
-                      for p in payloads], payloads=payloads, token=token)
-    impl = dict(urls=urls, auths=[list(a) if a else a for a in auths], yielded=[obs_doc(g) for g in yielded], outcome=err)
-    shape = "%dp/%s%s" % (len(payloads), "ts" if timeseries else "s", "/err" if err else "")
-    return dict(input=inp, impl=impl, coq=coq, kind=("by_time:" if by_time else "get_sessions:") + shape,
-                sig=[inp["op"], site, str(inp.get("cond")), [len(p["_items"]) for p in payloads],
-                     [d.get("_id") for d in flat][:3]],
+                      for p in payloads], payloads=payloads, token=spec["token"], take=spec["take"], family=family,
+               scribble=spec["scribble"])
+    impl = dict(urls=urls, auths=[list(a) if a else a for a in auths], yielded=run["yielded"], outcome=err)
+    shape = "%dp/%s%s" % (len(payloads), "ts" if timeseries else "s", "/err" if err not in (None, "Suspended") else "")
+    flat = run["flat"]
+    return dict(input=inp, impl=impl, coq=coq,
+                kind=family + ":" + ("by_time:" if spec["by_time"] else "get_sessions:") + shape + ("/take" if spec["take"] is not None else ""),
+                sig=[inp["op"], site, str(inp.get("cond")), [len(p["_items"]) for p in payloads], [d.get("_id") for d in flat][:3],
+                     spec["take"]],
                 nontrivial=True, metas=metas)
+
+
+def build_run_case(rng, by_time):
+    """one call on a fresh client"""
+    spec = rand_spec(rng, by_time)
+    with installed_transport() as t:
+        route = t.route(spec["base"] if spec["base"] is not None else DEFAULT_BASE, spec["payloads"])
+        run = new_run(spec, make_client(spec["base"], spec["token"]))
+        finish(run)
+    return case_of_run(run, route, "single")
+
+
+def build_reuse_cases(rng):
+    """the SAME client object for several consecutive calls (different queries, servers, sites); between calls
+    the caller may point the client at another base URL / token"""
+    base, token = rng.choice(BASES[1:]), rng.choice(["tok", "T2"])
+    out = []
+    with installed_transport() as t:
+        client = make_client(base, token)
+        for _ in range(rng.choice([2, 3, 4])):
+            if rng.random() < 0.3:
+                base, token = rng.choice(BASES[1:] + ["http://other/v2/"]), rng.choice(["tok", "T2", "T3"])
+                client.url, client.token = base, token
+            spec = rand_spec(rng, rng.random() < 0.3, base=base, token=token)
+            route = t.route(base, spec["payloads"])
+            run = new_run(spec, client)
+            finish(run)
+            out.append(case_of_run(run, route, "reuse"))
+    return out
+
+
+def build_interleaved_cases(rng):
+    """two or three live generators (distinct clients, bases, tokens, servers) advanced alternately"""
+    out = []
+    with installed_transport() as t:
+        runs = []
+        for i in range(rng.choice([2, 2, 3])):
+            base = ["http://a.example/api/", "http://b.example/v1/", "http://c.example/"][i]
+            spec = rand_spec(rng, rng.random() < 0.25, base=base, token="tok-%d" % i)
+            runs.append((new_run(spec, make_client(base, spec["token"])), t.route(base, spec["payloads"])))
+        guard = 0
+        while any(not r["done"] for r, _ in runs) and guard < 10000:
+            step(rng.choice([r for r, _ in runs if not r["done"]]))
+            guard += 1
+        for r, route in runs:
+            out.append(case_of_run(r, route, "interleaved"))
+    return out
+
+
+def build_count_case(rng):
+    """count_sessions directly and through get_sessions_by_time(count=True)"""
+    import pytz
+    base, token = rng.choice(BASES), rng.choice(["tok", "DEMO_TOKEN"])
+    site = rng.choice(SITES) if rng.random() < 0.8 else rng.choice(BAD_SITES)
+    total = rng.choice(["0", "17", "31337", None]) if rng.random() < 0.9 else None
+    by_time = rng.random() < 0.4
+    with installed_transport() as t:
+        route = t.route(base if base is not None else DEFAULT_BASE, [], total)
+        client = make_client(base, token)
+        try:
+            if by_time:
+                tt, zone = rand_instant_zone(rng)
+                off = oracle_offset(zone, tt) or 0
+                if not (MIN_T <= tt + off <= MAX_T) or zone not in FIXED_ZONES and zone not in DST_ZONES:
+                    zone = "UTC"
+                st = pytz.utc.localize(naive_of(tt)).astimezone(pytz.timezone(zone)) if rng.random() < 0.8 else None
+                me = rng.choice([None, 0, 2.5])
+                res = ("ok", client.get_sessions_by_time(site, start=st, end=None, min_energy=me, count=True))
+            else:
+                cond = rng.choice(CONDS)
+                res = ("ok", client.count_sessions(site, cond) if cond is not None or rng.random() < 0.5 else client.count_sessions(site))
+        except Exception as e:  # noqa
+            res = ("err", exc_label(e))
+    urls = [c[0] for c in route["calls"]]
+    heads = [c[1] for c in route["calls"]]
+    base_c = coq_str(base if base is not None else DEFAULT_BASE)
+    exp = "(%s, %s)" % (coq_list([coq_str(u) for u in urls]),
+                        "(Ok %s)" % coq_str(res[1]) if res[0] == "ok" and isinstance(res[1], str) else '(Err "%s")' % res[1])
+    if by_time:
+        coq = "(CCountByTime %s %s %s None %s %s %s)" % (base_c, coq_str(site), coq_opt(st, dt_aware_coq),
+                                                      coq_opt(None if me is None else "{0}".format(me), coq_str),
+                                                      coq_opt(total, coq_str), exp)
+        inp = dict(op="count_by_time", base=base, site=site, start=str(st), min_energy=me, total=total, token=token)
+    else:
+        coq = "(CCount %s %s %s %s %s)" % (base_c, coq_str(site), coq_opt(cond, coq_str), coq_opt(total, coq_str), exp)
+        inp = dict(op="count_sessions", base=base, site=site, cond=cond, total=total, token=token)
+    impl = dict(urls=urls, heads=[list(h) if h else h for h in heads], result=list(res))
+    return dict(input=inp, impl=impl, coq=coq, kind="count" + ("_by_time" if by_time else "") + ("/err" if res[0] == "err" else ""),
+                sig=["count", site, str(inp.get("cond")), total, by_time, str(inp.get("start"))], nontrivial=True)
+
+
+def build_parse_dates_case(rng):
+    """utils.parse_dates called directly on a caller-owned document"""
+    from acnportal.acndata.utils import parse_dates
+    flaw = rng.choice([None, None, None, "no-timezone", "unknown-timezone", "bad-timestamp"])
+    doc, meta = rand_doc(rng, 0, rng.random() < 0.5, flaw)
+    opq = Opaque()
+    d_c = doc_coq(doc, opq)
+    ids, n = {}, 0
+    for k, v in doc.items():
+        if not isinstance(v, str) and not (isinstance(v, dict) and "timestamps" in v):
+            ids[k] = n
+            n += 1
+    orig = copy.deepcopy(doc)
+    work = copy.deepcopy(doc)
+    try:
+        ret = parse_dates(work)
+        exp, impl, err = "(Ok %s)" % yielded_coq(orig, work, ids), dict(doc=obs_doc(work), returned=repr(ret)[:40]), None
+    except Exception as e:  # noqa
+        err = exc_label(e)
+        exp, impl = '(Err "%s")' % err, dict(error=err)
+    coq = "(CParseDates %s %s %s)" % (tabs_coq(tabs_for([meta])), d_c, exp)
+    return dict(input=dict(op="parse_dates", doc=orig, flaw=flaw), impl=impl, coq=coq, kind="parse_dates" + ("/err" if err else ""),
+                sig=["parse_dates", orig.get("_id")], nontrivial=True, metas=[meta])
+
+
+def hashseed_cases(rng, k=8):
+    """the same queries issued by a second interpreter with another PYTHONHASHSEED: the first URL must not depend
+    on hash order (site set, argument containers)"""
+    import json, os, subprocess, sys
+    specs = []
+    for _ in range(k):
+        specs.append(dict(base=rng.choice(BASES[1:]), site=rng.choice(SITES + BAD_SITES[:2]), cond=rng.choice(CONDS),
+                          project=rng.choice(PROJECTS), sort=rng.choice(SORTS), timeseries=rng.random() < 0.4))
+    env = dict(os.environ, PYTHONHASHSEED=str(rng.randint(1, 4000000000)))
+    p = subprocess.run([sys.executable, "-W", "ignore", "-c",
+                        "import sys, json; from harness import c20; print(json.dumps(c20.first_requests(json.loads(sys.stdin.read()))))"],
+                       input=json.dumps(specs), env=env, cwd=core.ROOT, stdout=subprocess.PIPE, stderr=subprocess.PIPE, text=True,
+                       timeout=120)
+    out = []
+    try:
+        results = json.loads(p.stdout.strip().split("\n")[-1])
+    except Exception:  # noqa
+        results = [dict(urls=["<second interpreter failed: %s>" % p.stderr[-200:].replace('"', "'")], outcome=None)] * k
+    empty = dict(_items=[], _links={}, _meta={})
+    for sp, r in zip(specs, results):
+        qc = "{| q_site := %s; q_cond := %s; q_project := %s; q_sort := %s; q_timeseries := %s |}" % (
+            coq_str(sp["site"]), coq_opt(sp["cond"], coq_str), coq_opt(sp["project"], coq_str), coq_opt(sp["sort"], coq_str),
+            coq_bool(sp["timeseries"]))
+        out_c = "Done" if r["outcome"] is None else '(Raised "%s")' % r["outcome"]
+        exp_c = "{| t_requests := %s; t_yielded := []; t_outcome := %s |}" % (coq_list([coq_str(u) for u in r["urls"]]), out_c)
+        coq = "(CRun [] %s %s [{| p_items := []; p_next := None |}] None %s)" % (coq_str(sp["base"]), qc, exp_c)
+        inp = dict(op="get_sessions", base=sp["base"], site=sp["site"], cond=sp["cond"], project=sp["project"], sort=sp["sort"],
+                   timeseries=sp["timeseries"], payloads=[empty], token="tok", take=None, family="hashseed", scribble=False,
+                   pythonhashseed=env["PYTHONHASHSEED"])
+        out.append(dict(input=inp, impl=dict(urls=r["urls"], auths=[["tok", ""]] * len(r["urls"]), yielded=[], outcome=r["outcome"]),
+                        coq=coq, kind="hashseed:get_sessions", sig=["hashseed", sp["site"], str(sp["cond"]), sp["sort"], sp["timeseries"]],
+                        nontrivial=True, metas=[]))
+    return out
+
+
+def first_requests(specs):
+    """(runs in the second interpreter) the requests each query makes against a one-page empty server"""
+    res = []
+    empty = dict(_items=[], _links={}, _meta={})
+    for sp in specs:
+        kwargs = {k: sp[k] for k in ("cond", "project", "sort") if sp[k] is not None}
+        kwargs["timeseries"] = sp["timeseries"]
+        urls, auths, yielded, err = run_client(sp["base"], "tok", lambda c: c.get_sessions(sp["site"], **kwargs), [empty])
+        res.append(dict(urls=urls, outcome=err))
+    return res
 
 
 def build_date_case(rng):
@@ -540,17 +799,52 @@ def corpus_cases():
     return out
 
 
+def same_string_two_zones(rng):
+    """the same served timestamp parsed consecutively into two different zones (a result remembered per string
+    would leak the first zone into the second)"""
+    import pytz
+    from acnportal.acndata.utils import parse_http_date
+    t, zone = rand_instant_zone(rng)
+    zones = [zone] + [z_ for z_ in rng.sample(DST_ZONES + ["UTC", "Asia/Kolkata"], 3) if z_ != zone][:2]
+    s_ = fmt_rfc1123(t)
+    out = []
+    for zn in zones:
+        off = oracle_offset(zn, t)
+        if off is None or not (MIN_T <= t + off <= MAX_T):
+            continue
+        try:
+            dt = parse_http_date(s_, pytz.timezone(zn))
+            exp, impl = "(Ok %s)" % dt_aware_coq(dt), dict(ts=dt.timestamp(), off=dt.utcoffset().total_seconds())
+        except Exception as e:  # noqa
+            exp, impl = '(Err "%s")' % exc_label(e), dict(error=exc_label(e))
+        out.append(dict(input=dict(op="parse_http_date", s=s_, zone=zn, t=t, oracle_off=off), impl=impl,
+                        coq="(CParse %s %s %s %s)" % (tabs_coq({zn: {t: off}}), coq_str(zn), coq_str(s_), exp),
+                        kind="parse_http_date/same-string", sig=["parse2", s_, zn], nontrivial=True))
+    return out
+
+
 def gen_cases(rng, n, tier):
     cases = corpus_cases()
+    cases.extend(hashseed_cases(rng))
     while len(cases) < n:
         r = rng.random()
-        if r < 0.45:
+        if r < 0.30:
             cases.append(build_run_case(rng, False))
-        elif r < 0.6:
+        elif r < 0.40:
             cases.append(build_run_case(rng, True))
+        elif r < 0.47:
+            cases.extend(build_reuse_cases(rng))
+        elif r < 0.54:
+            cases.extend(build_interleaved_cases(rng))
+        elif r < 0.59:
+            cases.append(build_count_case(rng))
+        elif r < 0.64:
+            cases.append(build_parse_dates_case(rng))
+        elif r < 0.69:
+            cases.extend(same_string_two_zones(rng))
         else:
             cases.append(build_date_case(rng))
-    return cases
+    return cases[:max(n, 1)]
 
 
 # ------------------------------------------------------------------------------------------------
@@ -606,6 +900,11 @@ def monitor(case):
     if op in ("get_sessions", "get_sessions_by_time"):
         payloads = inp["payloads"]
         base = inp["base"] if inp["base"] is not None else "https://ev.caltech.edu/api/v1/"
+        take = inp.get("take")
+        if take == 0:
+            if impl["urls"] or impl["yielded"] or impl["outcome"] != "Suspended":
+                return "the generator ran (%d requests) before the first next()" % len(impl["urls"])
+            return None
         if inp["site"] not in SITES:
             if impl["urls"] or impl["outcome"] != "ValueError" or impl["yielded"]:
                 return "invalid site %r: %d requests, outcome %s" % (inp["site"], len(impl["urls"]), impl["outcome"])
@@ -656,6 +955,11 @@ def monitor(case):
             for d in p["_items"]:
                 flat.append((d, metas[mi]))
                 mi += 1
+                if take is not None and len(flat) == take:
+                    stop = "Suspended"
+                    break
+            if stop:
+                break
             nxt = p["_links"].get("next")
             if nxt is None:
                 break
@@ -678,6 +982,8 @@ def monitor(case):
         if convertible == len(flat):
             if stop is None and impl["outcome"] is not None:
                 return "generator raised %s on a well-formed paging" % impl["outcome"]
+            if stop == "Suspended" and impl["outcome"] != "Suspended":
+                return "generator ended with %s while producing the first %d sessions" % (impl["outcome"], take)
             if got_ids != want_ids:
                 return "yielded sessions %r differ from the server's sessions in order %r" % (got_ids[:8], want_ids[:8])
             if impl["urls"] != exp_urls:
@@ -690,6 +996,35 @@ def monitor(case):
                 r = check_converted(g, flat[i][0], flat[i][1], "item %d" % i)
                 if r:
                     return r
+        return None
+    if op in ("count_sessions", "count_by_time"):
+        base = inp["base"] if inp["base"] is not None else DEFAULT_BASE
+        if inp["site"] not in SITES:
+            if impl["urls"] or impl["result"] != ["err", "ValueError"]:
+                return "count with invalid site %r: %d requests, result %r" % (inp["site"], len(impl["urls"]), impl["result"])
+            return None
+        if len(impl["urls"]) != 1:
+            return "count_sessions made %d requests" % len(impl["urls"])
+        u = impl["urls"][0]
+        pre = base + "sessions/" + inp["site"] + "?"
+        if not u.startswith(pre) or not u.endswith("limit=1"):
+            return "count URL %r is not %r ... limit=1" % (u, pre)
+        if op == "count_sessions" and u != pre + ("where=" + inp["cond"] + "&" if inp["cond"] is not None else "") + "limit=1":
+            return "count URL %r does not carry the filter %r" % (u, inp["cond"])
+        if impl["heads"][0] != ["HEAD", {"Authorization": "Bearer " + inp["token"]}]:
+            return "count request without the bearer token"
+        want = ["ok", inp["total"]] if inp["total"] is not None else ["err", "KeyError"]
+        if impl["result"] != want:
+            return "count result %r, server said %r" % (impl["result"], inp["total"])
+        return None
+    if op == "parse_dates":
+        m = case["metas"][0]
+        overflow = any(oracle_offset(m["zone"], t) is not None and not (MIN_T <= t + oracle_offset(m["zone"], t) <= MAX_T)
+                       for t in m["dates"].values())
+        if inp["flaw"] is None and not overflow:
+            if "error" in impl:
+                return "parse_dates raised %s on a well-formed document" % impl["error"]
+            return check_converted(impl["doc"], inp["doc"], case["metas"][0], "document")
         return None
     if op == "parse_http_date":
         if inp["s"] == fmt_rfc1123(inp["t"]):
@@ -740,14 +1075,19 @@ def replay(w):
     from acnportal.acndata.utils import http_date, parse_http_date
     if op in ("get_sessions",):
         kwargs = dict(cond=inp["cond"], project=inp["project"], sort=inp["sort"], timeseries=inp["timeseries"])
-        urls, auths, yielded, err = run_client(inp["base"], inp["token"], lambda c: c.get_sessions(inp["site"], **kwargs),
-                                               inp["payloads"])
-        impl = dict(urls=urls, auths=[list(a) if a else a for a in auths], yielded=[obs_doc(g) for g in yielded], outcome=err)
         metas = []
         for p in inp["payloads"]:
             for d in p["_items"]:
                 metas.append(dict(zone=d.get("timezone"), dates=_dates_of(d)))
-        return monitor(dict(input=inp, impl=impl, metas=metas))
+        spec = dict(by_time=False, base=inp["base"], token=inp["token"], site=inp["site"], timeseries=inp["timeseries"],
+                    payloads=inp["payloads"], metas=metas, take=inp.get("take"), scribble=inp.get("scribble", False),
+                    cond=inp["cond"], project=inp["project"], sort=inp["sort"],
+                    call=lambda c: c.get_sessions(inp["site"], **kwargs))
+        with installed_transport() as t:
+            route = t.route(inp["base"] if inp["base"] is not None else DEFAULT_BASE, inp["payloads"])
+            run = new_run(spec, make_client(inp["base"], inp["token"]))
+            finish(run)
+        return monitor(case_of_run(run, route, "replay"))
     if op in ("roundtrip", "http_date"):
         m = re.match(r"(\d+)-(\d+)-(\d+) (\d+):(\d+):(\d+)([+-])(\d+):(\d+)", inp["dt"])
         if not m:
